@@ -8,6 +8,8 @@ package main
 //     answer: one "<array>><value>" per op, joined by ';' ; array = [prio.id,...] is the
 //     backing slice of the queue after the op, value = returned item, "nil" or "-".
 //     A panicking op answers "PANIC" and ends the sequence.
+//   heapraw <op> ...        the same ops and answers, executed directly with container/heap
+//                           on a plain slice type of the harness (Top = h[0] or nil)
 //   heapinit <prio>:<id> ...   answer: the slice after heap.Init
 //
 // The backing slice of std.PriorityQueue is unexported (field s *sorter, sorter =
@@ -99,7 +101,64 @@ func (h *initHeap) Pop() any {
 	return x
 }
 
+func fmtInitHeap(h initHeap) string {
+	var sb strings.Builder
+	sb.WriteByte('[')
+	for i, c := range h {
+		if i > 0 {
+			sb.WriteByte(',')
+		}
+		sb.WriteString(c.String())
+	}
+	sb.WriteByte(']')
+	return sb.String()
+}
+
+func rawOp(h *initHeap, op string) (val string, ok bool) {
+	defer func() {
+		if r := recover(); r != nil {
+			if s, isStr := r.(string); isStr && strings.HasPrefix(s, "HARNESS") {
+				panic(r)
+			}
+			val, ok = "PANIC", false
+		}
+	}()
+	f := strings.Split(op, ":")
+	switch f[0] {
+	case "P":
+		heap.Push(h, &hitem{atoi(f[1]), atoi(f[2])})
+		return "-", true
+	case "O":
+		return heap.Pop(h).(*hitem).String(), true
+	case "T":
+		if len(*h) > 0 {
+			return (*h)[0].String(), true
+		}
+		return "nil", true
+	case "F":
+		(*h)[atoi(f[1])] = &hitem{atoi(f[2]), atoi(f[3])}
+		heap.Fix(h, atoi(f[1]))
+		return "-", true
+	case "R":
+		return heap.Remove(h, atoi(f[1])).(*hitem).String(), true
+	}
+	panic("HARNESS: bad heap op " + op)
+}
+
 func init() {
+	register("heapraw", func(toks []string) string {
+		h := initHeap{}
+		var out []string
+		for _, op := range toks[1:] {
+			v, ok := rawOp(&h, op)
+			if !ok {
+				out = append(out, "PANIC")
+				break
+			}
+			out = append(out, fmtInitHeap(h)+">"+v)
+		}
+		return strings.Join(out, ";")
+	})
 	register("heap", func(toks []string) string {
 		pq := std.NewPriorityQueue(4)
 		var out []string
@@ -123,15 +182,6 @@ func init() {
 			h = append(h, &hitem{atoi(f[0]), atoi(f[1])})
 		}
 		heap.Init(&h)
-		var sb strings.Builder
-		sb.WriteByte('[')
-		for i, c := range h {
-			if i > 0 {
-				sb.WriteByte(',')
-			}
-			sb.WriteString(c.String())
-		}
-		sb.WriteByte(']')
-		return sb.String()
+		return fmtInitHeap(h)
 	})
 }
